@@ -11,10 +11,10 @@ CLAIMED = {
    note=TRUST + "The induction from these per-operation facts to the whole-history supply statement (sums over the coin map) is the paper argument of DESIGN 4/C01-8, not mechanised; deposit/withdraw settlement, pegging and TIP-909 subsidy arithmetic not yet under contract; mainnet grandfathered faucet is issuance outside the property's list (DESIGN 4/C01).", technique=T_VERUS),
  "C03": dict(level="proof", design="DESIGN.md 4/C03",
    text="Order independence proved over the contracts: lemma_batch_perm (the exact coin-set transition specified by create_next_state's postcondition is invariant under reordering the batch), lemma_fees_perm and lemma_fsum_perm (fee totals, vote sums over hash-map/hash-set enumerations), votes/confirm/seal results specified through order-independent sums; apply_block proved for an arbitrary enumeration of the block's unordered transaction set.",
-   note=TRUST + "Thread schedules are not modelled: rayon adapters carry sequential-semantics contracts (A-RAYON); acceptance-side order independence (load_relevant_coins / parallel validation) pending with apply_tx_batch_impl.", technique=T_VERUS + " (lemmas over the contracts)"),
+   note=TRUST + "Thread schedules are not modelled: rayon adapters carry sequential-semantics contracts (A-RAYON; try_fold/try_reduce as one sequential chunk); acceptance conditions of apply_tx_batch_impl are stated position-free (quantified over the batch's members), but a lemma 'batch_core is invariant under permutation of the batch' is not mechanised for the stake / DoscMint clauses.", technique=T_VERUS + " (lemmas over the contracts)"),
  "C02": dict(level="proof", design="DESIGN.md 4/C02",
-   text="create_next_state proved to produce exactly (coins + kept outputs + faucet markers - inputs) with the recorded data, whole-view postcondition (batch_coins), over the raw-SMT-verified CoinMapping insert/remove/get contracts; output_coins_from_tx proved to create exactly the non-destroyed outputs with NewCustom->Custom(hash) and the block height; check_tx_validity proves existence/balance/approval/unlock for accepted transactions.",
-   note=TRUST + "Not yet under contract: load_relevant_coins / extract_input_coins / apply_tx_batch_impl composition (acceptance conditions of the whole batch); rejection-is-no-op follows from apply_tx_batch taking &self and assigning only on Ok (not yet a discharged obligation).", technique=T_VERUS),
+   text="apply_tx_batch_impl proved (unit batch) against the defined relation batch_core: Ok only if every input is unspent in the prior state or a kept output of the batch (rel_of), no coin is consumed twice (inputs_distinct), every transaction is well-formed, balanced, approved, unlocked and fee-paying (tx_accepted); the resulting coin set is exactly previous + kept outputs (declared value / covenant hash / additional data, this height, NewCustom -> Custom(hash)) + faucet markers - inputs (batch_coins, whole-view postcondition); load_relevant_coins, extract_input_coins, output_coins_from_tx, check_tx_validity, create_next_state each proved in their own unit over the raw-SMT-verified CoinMapping contracts; apply_tx_batch proved a no-op on Err.",
+   note=TRUST + "rayon adapters carry sequential-semantics contracts (A-RAYON); envelopes (u128 ranges, the domains of F-C04-index / F-C04-cache / F-C09-melpow) and two state invariants (history_ok, coin_heights_ok) enter as the precondition batch_env; structural rewrites of the batch functions lose the contract anchors (exit 2) and are then decided only by the real-code witness replays.", technique=T_VERUS),
  "C04": dict(level="proof", design="DESIGN.md 4/C04",
    text="validate_tx_scripts proved Ok <=> (cached or covenant present, decodes, and evaluates truthy on (tx, env)); check_tx_validity proved to approve every input with its own environment under the envelope (pairwise distinct covenant hashes, <= 256 inputs); the two excluded domains are genuine defects listed as known findings with real-code witnesses.",
    note=TRUST + "Covenant execution is the uninterpreted spec_exec (its semantics is C10); standard-covenant clause not yet mechanised.", technique=T_VERUS),
@@ -23,7 +23,7 @@ CLAIMED = {
    note=TRUST + "Transaction::base_fee/weight formula assumed (A-STRUCTS); proposer reward coin (collect_proposer_action_fee) pending in the seal unit.", technique=T_VERUS),
  "C06": dict(level="proof", design="DESIGN.md 4/C06",
    text="apply_block proved: Ok(r) only if header(r) == block.header and r is (next_unsealed; apply the block's transactions in some enumeration; seal with the block's action); Err(WrongHeader) only if that state's header differs; to_block proved to serialise header/transactions/action; seal proved against seal_rel; apply_tx_batch proved a no-op on Err.",
-   note=TRUST + "Batch application enters through the relation batch_result (frame consequences only; apply_tx_batch_impl composition pending); A-DET names deterministic results of exec functions by spec functions.", technique=T_VERUS),
+   note=TRUST + "Batch application enters apply_block through the relation batch_result, which unit batch proves for apply_tx_batch_impl; A-DET names deterministic results of exec functions by spec functions.", technique=T_VERUS),
  "C07": dict(level="proof", design="DESIGN.md 4/C07",
    text="SealedState::header proved field by field against spec_header (roots as functions of contents); next_unsealed proved: height+1, history gets the header at its height, network unchanged, chain invariant (each stored header at its height, linked to its parent by hash) preserved.",
    note=TRUST + "Merkle proofs and root history-independence are novasmt's (A-SMT: roots are injective functions of contents); typed SMT wrappers and transaction roots assumed by contract.", technique=T_VERUS),
@@ -56,7 +56,7 @@ CLAIMED = {
    note=TRUST + "seal(None) frame pending in the seal unit.", technique=T_VERUS),
  "C18": dict(level="proof", design="DESIGN.md 4/C18",
    text="validate_and_get_doscmint_speed proved to accept only when the payload decodes, the proof verifies (legacy or TIP-910) for the puzzle hk(hash(header at coin height), ser(coin id)), the coin is >= 100 blocks old on mainnet, and minted ERG <= dosc_to_erg(height, reward(speed, previous dosc_speed)); reward / inflator / speed formulas proved against integer specs.",
-   note=TRUST + "melpow verification uninterpreted; its non-totality is known finding F-C09-melpow; max-reduction of speeds over the batch (apply_tx_batch_impl) pending.", technique=T_VERUS),
+   note=TRUST + "melpow verification uninterpreted; its non-totality is known finding F-C09-melpow; the recorded speed is proved to be the maximum of the previous one and the validated ones (apply_tx_batch_impl; rayon try_fold/try_reduce modelled as one sequential chunk).", technique=T_VERUS),
  "C19": dict(level="proof", design="DESIGN.md 4/C19",
    text="handle_faucet_tx proved: mainnet non-grandfathered => MalformedTx; marker present => DuplicateTx; otherwise the zero-MEL marker is inserted; create_next_state proved to carry markers of all faucets of the batch and to refuse same-batch duplicates.",
    note=TRUST + "Hex comparison with the grandfathered hash modelled as an opaque predicate (literal pinned by text); marker persistence over histories is the frame argument of DESIGN 4/C19.", technique=T_VERUS),
@@ -68,6 +68,9 @@ CLAIMED = {
    note=TRUST + "seal(None) frame pending in the seal unit.", technique=T_VERUS),
 }
 NA = {}
+CLAIMED["C09"] = dict(level="other", design="DESIGN.md 4/C09",
+   text="Panic-freedom is the implicit-safety obligation of every function under contract (Verus proves absence of arithmetic overflow, out-of-range index/slice, division by zero, unwrap of None/Err and failed assert for ALL inputs satisfying the stated preconditions): 180 such obligations over the validation path (apply_tx_batch_impl, load_relevant_coins, check_tx_validity, validate_and_get_doscmint_speed, create_next_state, seal, preseal_melmint, process_swaps_for_single_pool, Executor::step and its arms, Covenant::from_bytes, confirm, ...). Panic conditions of dependencies (melstructs CoinValue arithmetic, PoolState, num, melpow) are preconditions of their assumed contracts, so every call site has to establish them. Five panics found this way were repaired (fix: commits) and one (melpow) is a known finding.",
+   note=TRUST + "Level 'other': the preconditions that are envelopes (supply < 2^127-style u128 ranges, listed per clause as 'C09 envelope') are assumed, not derived from a reachable-state invariant; termination/hang-freedom is only partially covered (decreases on opcodes_weight, step; run_to_end's loop and melpow are not); functions still entered through assumed contracts (process_deposits/withdrawals/pegging, apply_tip_909, GenesisConfig) are not covered; allocation failure and stack depth are outside Verus.", technique=T_VERUS + " (implicit safety obligations)")
 def main():
     props = [json.loads(l) for l in open(os.path.join(VERIF, "properties.jsonl"))]
     checks, na = [], []
